@@ -33,7 +33,8 @@ def run(chk, repo):
     chk.rule("C02-X4", "declared indexing support is served; keys are forwarded unchanged; row dispatch covers int and slice", 5)
     chk.attempt(row_bookkeeping, chk, repo)
     chk.attempt(x123, chk, repo, covered_by="row_bookkeeping", rules=("C02-X1", "C02-X2", "C02-X3"))
-    chk.attempt(x4, chk, repo)
+    chk.attempt(wrapper_forwarding, chk, repo)
+    chk.attempt(x4, chk, repo, covered_by="wrapper_forwarding")
     chk.attempt(x4_rows, chk, repo, covered_by="row_bookkeeping")
 
 
@@ -124,6 +125,56 @@ def x123(chk, repo):
         chk.require(guarded, "C02-X3", where, f"{short(c, 40)} is guarded by an emptiness test",
                     f"{short(c, 40)} runs on the list `{lst}` that stays empty when no row is selected: an empty row selection raises ValueError instead of returning a (0, n) block",
                     key="getitem:empty-stack", sample={"call": short(c, 50)})
+
+
+def wrapper_forwarding(chk, repo):
+    """C02-X6: LazilyIndexedWrapper._raw_indexing_method evaluated on representative keys with a recording array stub: the key
+    tuple reaches Array.__getitem__ exactly as xarray's adapter produced it (bounds 0 / None / negative, steps), once, and
+    what the array returns is returned"""
+    from collections import OrderedDict
+    from ..shapes import Const, Fn, Interp, Obj, ShapeError, TupS, _Raise
+    xm = repo.module(XR)
+    where = f"{xm.relpath}:LazilyIndexedWrapper._raw_indexing_method"
+    r = repo.resolve_module_name(xm, "LazilyIndexedWrapper")
+    if r.kind != "class":
+        raise AnalysisError("anchor vanished: xarray.LazilyIndexedWrapper")
+    keys = [(2, slice(0, 5, 1)), (slice(0, 0, 1), slice(None, None, None)), (slice(None, 0, 1), 3), (slice(0, 4, 2), slice(1, None, 3)), (0, 0), (slice(4, None, 1), slice(0, 1, 1)),
+            (slice(None, None, None), slice(None, None, None)), (slice(2, 2, 1), 0), (-1, slice(-3, None, 1))]
+    chk.rule("C02-X6", "the backend wrapper hands the key produced by xarray's adapter to the array unchanged, once, and returns what the array returns", len(keys))
+    for key in keys:
+        I = Interp(repo)
+        seen = []
+        marker = Obj("Block", OrderedDict())
+
+        def getitem(I_, a, kw):
+            seen.append(a[0])
+            return marker
+        lock = Obj("Lock", OrderedDict())
+        lock.fields["__enter__"] = Fn("py", impl=lambda I_, a, k: lock, name="__enter__")
+        lock.fields["__exit__"] = Fn("py", impl=lambda I_, a, k: Const(None), name="__exit__")
+        lock.fields["acquire"] = Fn("py", impl=lambda I_, a, k: Const(True), name="acquire")
+        lock.fields["release"] = Fn("py", impl=lambda I_, a, k: Const(None), name="release")
+        arr = Obj("ArrayStub", OrderedDict(__getitem__=Fn("py", impl=getitem, name="__getitem__"), shape=Const((9, 7)), dtype=Const("uint16")))
+        w = Obj("LazilyIndexedWrapper", OrderedDict(array=arr, lock=lock, shape=Const((9, 7)), dtype=Const("uint16")), klass=(r.mod, r.node))
+        kshape = TupS([Const(x) for x in key])
+        try:
+            out = I.call(I.getattr(w, "_raw_indexing_method"), [kshape], {})
+        except (ShapeError, _Raise) as e:
+            raise AnalysisError(f"{where}: cannot be evaluated on the key {key!r}: {str(e)[:120]}")
+        got = None
+        if len(seen) == 1:
+            k0 = seen[0]
+            parts = k0.elts if isinstance(k0, TupS) else (list(k0.v) if isinstance(k0, Const) and isinstance(k0.v, tuple) else None)
+            if parts is not None:
+                got = tuple(p_.v if isinstance(p_, Const) else repr(p_) for p_ in parts) if isinstance(k0, TupS) else tuple(parts)
+        def same(a_, b_, n_):
+            if isinstance(a_, slice) and isinstance(b_, slice):
+                return range(n_)[a_] == range(n_)[b_]  # the same selection of the axis, however the bounds are spelled
+            return type(a_) is type(b_) and a_ == b_
+        ok = got is not None and len(got) == len(key) and all(same(a_, b_, n_) for a_, b_, n_ in zip(got, key, (9, 7))) and out is marker
+        chk.require(ok, "C02-X6", where, f"key {key!r} reaches the array unchanged",
+                    f"xarray hands the backend the key {key!r}; the array is indexed {len(seen)} time(s) with {got!r}" + ("" if out is marker else " and the array's result is not what is returned")
+                    + ": the selection that is loaded is not the selection that was asked for", key="wrapper:key-forwarding", sample={"key": repr(key)})
 
 
 def x4(chk, repo):
